@@ -715,7 +715,13 @@ func generate(seed uint64, n int) []barrage {
 			finish(kind, lab, mode, fs)
 		}
 	}
+	// the thorough tier (n >= 1800) spends about 1130 barrages on the exhaustive fragment
+	// enumeration; the shares below are of what remains
+	exhaustive := n >= 1800
 	rest := n - len(bs)
+	if exhaustive {
+		rest -= (fragSeqCount() + 29) / 30
+	}
 	if rest < 20 {
 		rest = 20
 	}
@@ -731,35 +737,47 @@ func generate(seed uint64, n int) []barrage {
 	slice("tcpopt", ocore, opool, share(12), 18)
 	slice("icmp", nil, ipool, share(6), 17)
 	slice("state", nil, spool, share(10), 17)
+	nfrag := share(20)
 
 	// ---- fragments
-	nfrag := share(20)
 	total := fragSeqCount()
-	exhaustive := nfrag*7 >= total*3
-	seqNo := 0
+	if exhaustive {
+		// thorough tier: EVERY sequence of 1..3 fragments over the shape set (all fragments of a
+		// sequence share the id; sequences in one barrage have distinct ids), 30 sequences per
+		// barrage, alternating links; plus sampled different-id variants below
+		for k := 0; k < total; {
+			mode := modeOf()
+			var fs []frame
+			lab := fmt.Sprintf("frag/all-from-seq%d", k)
+			for j := 0; j < 30 && k < total; j++ {
+				proto := byte(17)
+				if k%7 == 3 {
+					proto = 1
+				}
+				fs = append(fs, fragSeq(k, 0, uint16(0x100+j*8), proto)...)
+				k++
+			}
+			finish("frag", lab, mode, fs)
+		}
+	}
 	for i := 0; i < nfrag; i++ {
 		mode := modeOf()
 		var fs []frame
 		lab := ""
 		for len(fs) <= 17 {
 			var k, variant int
-			if exhaustive {
-				k, variant = seqNo%total, (seqNo/total)%3
-				seqNo++
-			} else {
-				// pairs are the densest source of inconsistent hole bookkeeping: half of the samples
-				switch r.Intn(4) {
-				case 0:
-					k = r.Intn(32)
-				case 1, 2:
-					k = 32 + r.Intn(1024)
-				default:
-					k = 32 + 1024 + r.Intn(32768)
-				}
-				variant = 0
-				if r.Intn(4) == 0 {
-					variant = 1 + r.Intn(3)
-				}
+			// pairs are the densest source of inconsistent hole bookkeeping: half of the samples
+			switch r.Intn(4) {
+			case 0:
+				k = r.Intn(32)
+			case 1, 2:
+				k = 32 + r.Intn(1024)
+			default:
+				k = 32 + 1024 + r.Intn(32768)
+			}
+			variant = 0
+			if exhaustive || r.Intn(4) == 0 {
+				variant = 1 + r.Intn(3)
 			}
 			proto := byte(17)
 			if r.Intn(5) == 0 {
@@ -801,7 +819,7 @@ func generate(seed uint64, n int) []barrage {
 				_, f := noiseFrame(r, mode)
 				fs = append(fs, f)
 			case 1:
-				fs = append(fs, fragSeq(r.Intn(total), r.Intn(4), uint16(0x3000+j), 17)...)
+				fs = append(fs, fragSeq(r.Intn(fragSeqCount()), r.Intn(4), uint16(0x3000+j), 17)...)
 			case 2:
 				fs = append(fs, pulse())
 			default:
